@@ -630,4 +630,187 @@ theorem reserve_t (cfg : Cfg) (d : DST) (erSize emptySize : Nat) (s : St) (hwf :
       simp only [h2, if_false] at hw
       exact reserveTail_t cfg d erSize s hwf hw hi
 
+
+theorem commit_tf (cfg : Cfg) (d : DST) (s : St) : TFrame s (commit cfg d s) := by
+  unfold commit
+  split
+  · exact TFrame.refl s
+  · split
+    · exact cbClose_tf cfg d s
+    · exact TFrame.refl s
+
+theorem commit_t (cfg : Cfg) (d : DST) (s : St) (hwf : ClockWF d) (hw : (commit cfg d s).p.clock < clkW d)
+    (hu : s.c.useCurLastEventTs = false) (hi : TInv s) : TInv (commit cfg d s) := by
+  unfold commit at hw ⊢
+  split
+  · exact hi
+  · rename_i hh
+    simp only [hh, if_false] at hw
+    split
+    · rename_i hf
+      simp only [hf, if_true] at hw
+      exact (cbClose_t cfg d s hwf hw).1 hu hi
+    · exact hi
+
+theorem traceWrite_tf (cfg : Cfg) (d : DST) (e : ERT) (args : Args) (s : St) : TFrame s (traceWrite cfg d e args s) := by
+  unfold traceWrite
+  simp only
+  have h1 := runSer_tf (serRecord (serEnvOf cfg d e.id s.c.curLastEventTs s.c) d e args) s
+  generalize runSer _ s = s1 at h1
+  split
+  · exact h1
+  · have h2 : TFrame s1 (if d.feat.erTs.isSome = true then s1.ev (.tsWrite "rec" s1.c.curLastEventTs) else s1) := by
+      split <;> exact ⟨Nat.le_refl _, rfl, rfl⟩
+    generalize (if d.feat.erTs.isSome = true then s1.ev (.tsWrite "rec" s1.c.curLastEventTs) else s1) = s2 at h2
+    have h3 := commit_tf cfg d (s2.ev (.recDone e.name s.c.at_ s2.c.at_))
+    have h4 : TFrame s (commit cfg d (s2.ev (.recDone e.name s.c.at_ s2.c.at_))) :=
+      (h1.trans h2).trans ⟨h3.clock, h3.useCur, h3.cur⟩
+    split
+    · exact h4
+    · exact ⟨h4.clock, h4.useCur, h4.cur⟩
+
+theorem traceWrite_t (cfg : Cfg) (d : DST) (e : ERT) (args : Args) (s : St) (hwf : ClockWF d)
+    (hw : (traceWrite cfg d e args s).p.clock < clkW d) (hu : s.c.useCurLastEventTs = false) (hi : TInv2 s) :
+    TInv (traceWrite cfg d e args s) := by
+  unfold traceWrite at hw ⊢
+  simp only at hw ⊢
+  have hq := TQ.runSer (serRecord (serEnvOf cfg d e.id s.c.curLastEventTs s.c) d e args) s
+  generalize runSer _ s = s1 at hq hw
+  have h1 := hq.inv2 hi
+  split
+  · exact h1.1
+  · rename_i hh
+    simp only [hh, if_false] at hw
+    have h2 : TInv2 (if d.feat.erTs.isSome = true then s1.ev (.tsWrite "rec" s1.c.curLastEventTs) else s1) := by
+      split
+      · exact h1.tsw _ _ h1.2 (Nat.le_refl _)
+      · exact h1
+    have hu2 : (if d.feat.erTs.isSome = true then s1.ev (.tsWrite "rec" s1.c.curLastEventTs) else s1).c.useCurLastEventTs = false := by
+      split <;> (show s1.c.useCurLastEventTs = false; rw [hq.fr.useCur]; exact hu)
+    generalize (if d.feat.erTs.isSome = true then s1.ev (.tsWrite "rec" s1.c.curLastEventTs) else s1) = s2 at h2 hu2 hw
+    have h3 : TInv (s2.ev (.recDone e.name s.c.at_ s2.c.at_)) := h2.1.evq _ (fun _ _ h => by cases h)
+    split
+    · rename_i hc
+      simp only [hc, if_true] at hw
+      exact commit_t cfg d _ hwf hw hu2 h3
+    · rename_i hc
+      simp only [hc, if_false] at hw
+      exact (commit_t cfg d _ hwf hw hu2 h3).upd rfl rfl rfl
+
+theorem traceAfterReserve_mono (cfg : Cfg) (d : DST) (e : ERT) (args : Args) (erAt erSize : Nat) (r : Bool × St) :
+    r.2.p.clock ≤ (traceAfterReserve cfg d e args erAt erSize r).p.clock := by
+  unfold traceAfterReserve
+  split
+  · exact Nat.le_refl _
+  · split
+    · exact Nat.le_refl _
+    · split
+      · exact Nat.le_refl _
+      · exact (traceWrite_tf cfg d e args r.2).clock
+
+theorem traceAfterReserve_t (cfg : Cfg) (d : DST) (e : ERT) (args : Args) (erAt erSize : Nat) (r : Bool × St)
+    (hwf : ClockWF d) (hw : (traceAfterReserve cfg d e args erAt erSize r).p.clock < clkW d)
+    (hu : r.2.c.useCurLastEventTs = false) (hi : TInv2 r.2) :
+    TInv (traceAfterReserve cfg d e args erAt erSize r) ∧
+    (traceAfterReserve cfg d e args erAt erSize r).c.useCurLastEventTs = false := by
+  unfold traceAfterReserve at hw ⊢
+  split
+  · exact ⟨hi.1, hu⟩
+  · rename_i hh
+    simp only [hh, if_false] at hw
+    split
+    · exact ⟨hi.1.upd rfl rfl rfl, hu⟩
+    · rename_i hok
+      simp only [hok, if_false] at hw
+      split
+      · exact ⟨((noSpace_tq true r.2).inv hi.1).upd rfl rfl rfl, hu⟩
+      · rename_i hc
+        simp only [hc, if_false] at hw
+        exact ⟨traceWrite_t cfg d e args r.2 hwf hw hu hi, (traceWrite_tf cfg d e args r.2).useCur.trans hu⟩
+
+theorem traceEnabled_t (cfg : Cfg) (d : DST) (e : ERT) (args : Args) (s : St) (hwf : ClockWF d)
+    (hw : (traceEnabled cfg d e args s).p.clock < clkW d) (hu : s.c.useCurLastEventTs = false) (hi : TInv2 s) :
+    TInv (traceEnabled cfg d e args s) ∧ (traceEnabled cfg d e args s).c.useCurLastEventTs = false := by
+  unfold traceEnabled at hw ⊢
+  have h0 := reserve_tf0 cfg d (erSizeAt d e args s.c.at_) (erSizeAt d e args s.c.offContent) s hu
+  have hb := Nat.lt_of_le_of_lt (traceAfterReserve_mono cfg d e args s.c.at_ (erSizeAt d e args s.c.at_)
+    (reserve cfg d (erSizeAt d e args s.c.at_) (erSizeAt d e args s.c.offContent) s)) hw
+  exact traceAfterReserve_t cfg d e args _ _ _ hwf hw h0.useCur (reserve_t cfg d _ _ s hwf hb hi)
+
+theorem traceEnabled_mono (cfg : Cfg) (d : DST) (e : ERT) (args : Args) (s : St) (hu : s.c.useCurLastEventTs = false) :
+    s.p.clock ≤ (traceEnabled cfg d e args s).p.clock := by
+  unfold traceEnabled
+  exact Nat.le_trans (reserve_tf0 cfg d _ _ s hu).clock (traceAfterReserve_mono cfg d e args _ _ _)
+
+/-- the entry sample of a tracing function establishes `TInv2` -/
+theorem traceClock_t (d : DST) (clk : Clock) (hclk : d.clock = some clk) (s : St)
+    (hw : (traceClock d s).p.clock < clkW d) (hi : TInv s) :
+    TInv2 (traceClock d s) ∧ (traceClock d s).c.useCurLastEventTs = s.c.useCurLastEventTs ∧
+    s.p.clock ≤ (traceClock d s).p.clock := by
+  unfold traceClock at hw ⊢
+  simp only [hclk] at hw ⊢
+  have hv := cbClock_val clk s (by simpa [clkW, hclk] using hw)
+  have hq : TQ s (cbClock clk s).2 := ⟨cbClock_tf clk s, cbClock_quiet clk s⟩
+  have h1 := hq.inv hi
+  refine ⟨⟨⟨h1.ts, ?_, h1.sorted⟩, ?_⟩, hq.fr.useCur, hq.fr.clock⟩
+  · show (cbClock clk s).1 ≤ (cbClock clk s).2.p.clock
+    rw [hv]; exact Nat.le_refl _
+  · show lastTs (cbClock clk s).2.log ≤ (cbClock clk s).1
+    rw [hv]; exact h1.ts
+
+/-- invariant between public API calls -/
+def TTop (s : St) : Prop := TInv s ∧ s.c.useCurLastEventTs = false
+
+theorem traceBody_mono (cfg : Cfg) (d : DST) (e : ERT) (args : Args) (s : St) (hu : s.c.useCurLastEventTs = false) :
+    s.p.clock ≤ (traceBody cfg d e args s).p.clock := by
+  unfold traceBody
+  simp only
+  split
+  · exact Nat.le_refl _
+  · exact traceEnabled_mono cfg d e args ((s.ev (.traceCall e.name s.c.isTracingEnabled)).setFlag true) hu
+
+theorem traceClock_fr (d : DST) (s : St) :
+    s.p.clock ≤ (traceClock d s).p.clock ∧ (traceClock d s).c.useCurLastEventTs = s.c.useCurLastEventTs := by
+  unfold traceClock
+  split
+  · rename_i clk _
+    exact ⟨(cbClock_tf clk s).clock, (cbClock_tf clk s).useCur⟩
+  · exact ⟨Nat.le_refl _, rfl⟩
+
+theorem traceBody_t (cfg : Cfg) (d : DST) (e : ERT) (args : Args) (s : St) (hwf : ClockWF d)
+    (hw : (traceBody cfg d e args s).p.clock < clkW d) (hu : s.c.useCurLastEventTs = false) (hi : TInv2 s) :
+    TTop (traceBody cfg d e args s) := by
+  unfold traceBody at hw ⊢
+  simp only at hw ⊢
+  split
+  · exact ⟨hi.1.evq _ (fun _ _ h => by cases h), hu⟩
+  · rename_i he
+    simp only [he, if_false] at hw
+    have h1 : TInv2 ((s.ev (.traceCall e.name s.c.isTracingEnabled)).setFlag true) :=
+      (hi.evq _ (fun _ _ h => by cases h)).upd rfl rfl rfl
+    exact traceEnabled_t cfg d e args _ hwf hw hu h1
+
+theorem trace_mono (cfg : Cfg) (d : DST) (e : ERT) (args : Args) (s : St) (hu : s.c.useCurLastEventTs = false) :
+    s.p.clock ≤ (trace cfg d e args s).p.clock := by
+  unfold trace
+  split
+  · exact Nat.le_refl _
+  · obtain ⟨c1, c2⟩ := traceClock_fr d s
+    exact Nat.le_trans c1 (traceBody_mono cfg d e args _ (c2.trans hu))
+
+theorem trace_t (cfg : Cfg) (d : DST) (clk : Clock) (hclk : d.clock = some clk) (e : ERT) (args : Args) (s : St)
+    (hwf : ClockWF d) (hw : (trace cfg d e args s).p.clock < clkW d) (hi : TTop s) :
+    TTop (trace cfg d e args s) := by
+  unfold trace at hw ⊢
+  split
+  · exact hi
+  · rename_i hh
+    simp only [hh, if_false] at hw
+    obtain ⟨f1, f2⟩ := traceClock_fr d s
+    have hu : (traceClock d s).c.useCurLastEventTs = false := f2.trans hi.2
+    have hb : (traceClock d s).p.clock < clkW d :=
+      Nat.lt_of_le_of_lt (traceBody_mono cfg d e args _ hu) hw
+    obtain ⟨c1, _, _⟩ := traceClock_t d clk hclk s hb hi.1
+    exact traceBody_t cfg d e args _ hwf hw hu c1
+
 end BVM
